@@ -443,11 +443,39 @@ pub fn run_case(ctx: &Ctx, case: &Case, counting: bool) -> PResult {
 				let f: Vec<&str> = rest.split(' ').collect();
 				Some(f.get(11)?.parse::<u64>().ok()? + f.get(12)?.parse::<u64>().ok()?)
 			};
+			// ... and by scheduler state: in six samples over 3 s no other thread of the process is
+			// runnable ('R') or in uninterruptible I/O ('D') — a thread that merely did not get a CPU
+			// on a loaded machine would show as runnable
+			let me = std::fs::read_link("/proc/thread-self").ok().and_then(|p| p.file_name().map(|n| n.to_string_lossy().to_string()));
+			let busy_threads = || -> usize {
+				let mut n = 0;
+				if let Ok(rd) = std::fs::read_dir("/proc/self/task") {
+					for e in rd.flatten() {
+						let tid = e.file_name().to_string_lossy().to_string();
+						if Some(&tid) == me.as_ref() {
+							continue;
+						}
+						if let Ok(st) = std::fs::read_to_string(e.path().join("stat")) {
+							if let Some(i) = st.rfind(')') {
+								let state = st[i + 1..].trim_start().chars().next().unwrap_or('?');
+								if state == 'R' || state == 'D' {
+									n += 1;
+								}
+							}
+						}
+					}
+				}
+				n
+			};
 			if let Some(c0) = cpu() {
-				std::thread::sleep(Duration::from_secs(3));
+				let mut busy = 0;
+				for _ in 0..6 {
+					std::thread::sleep(Duration::from_millis(500));
+					busy += busy_threads();
+				}
 				if let Some(c1) = cpu() {
 					// clock ticks (10 ms each): allow the monitor's own wake-ups
-					if c1.saturating_sub(c0) <= 3 {
+					if c1.saturating_sub(c0) <= 3 && busy == 0 {
 						all_waiting = true;
 					}
 				}
